@@ -134,6 +134,8 @@ FAMILIES = [
     # a parameterless rule referred to with empty parentheses and without, at one position
     ('empty-parentheses-reference', lambda k: '```\nimport collections\nCALLS = collections.Counter()\ndef note(x):\n    CALLS[x] += 1\n    return x\n```\n'
                                               'start = (X() << "b") | (X << "c") | [Expect(X()), X]\nX = /[a-z]/ |> `note`\n'),
+    ('rule-passed-by-name-and-referenced', lambda k: '```\nimport collections\nCALLS = collections.Counter()\ndef note(x):\n    CALLS[x] += 1\n    return x\n```\n'
+                                             'start = (Par(X) << "!") | (X << "?") | [Expect(Par(x=X)), X]\nPar(x) = x | ("(" >> x << ")")\nX = /[a-z]/ |> `note`\n'),
     ('side-effect', lambda k: '```\nimport collections\nCALLS = collections.Counter()\ndef note(x):\n    CALLS[x] += 1\n    return x\n```\nstart = [A, "x"] | [A, "y"] | A\nA = /[a-z]+/ |> `note`\n'),
 ]
 
@@ -152,6 +154,8 @@ def grammar_stream(R_, tier, rnd):
                 text = 'a' * n
             elif name == 'single-reference-rule':
                 text = ''.join(str(i % 10) for i in range(min(n, 40)))
+            elif name == 'rule-passed-by-name-and-referenced':
+                text = 'a?' if n % 2 else 'az'
             elif name == 'empty-parentheses-reference':
                 text = 'ac' if n % 2 else 'az' 
             else:
@@ -160,10 +164,10 @@ def grammar_stream(R_, tier, rnd):
             orig = {}
 
             def wrap(rn, f):
-                def w(*a):
+                def w(*a, **kw):
                     k = (rn, a[1])
                     counts[k] = counts.get(k, 0) + 1
-                    return f(*a)
+                    return f(*a, **kw)
                 return w
             for rn in rules:
                 orig[rn] = getattr(g, '_try_' + rn)
@@ -183,19 +187,22 @@ def grammar_stream(R_, tier, rnd):
             R_.count('grammar-families', (name, n))
             case = {'family': name, 'grammar': mk(0), 'text_length': len(text)}
             worst = max(counts.values()) if counts else 0
-            if name == 'unhashable-argument-inside-shared-rule':
-                # the parameterised rule is (by design) not memoised for an unhashable argument: judge the parameterless rules
-                counts = {k: v for k, v in counts.items() if k[0] != 'OneOf'}
-                worst = max(counts.values()) if counts else 0
-                total = sum(counts.values())
+            # the property speaks of PARAMETERLESS rules: a parameterised rule is keyed by its arguments as well (Par(X) and
+            # Par(x=X) are two instantiations; an unhashable argument is not memoised at all)
+            base_args = 3 if hasattr(g, '_ctx') else 2
+            paramless = {rn for rn in rules if orig[rn].__code__.co_argcount == base_args and not orig[rn].__code__.co_kwonlyargcount}
+            counts = {k: v for k, v in counts.items() if k[0] in paramless}
+            worst = max(counts.values()) if counts else 0
+            total = sum(counts.values())
+            nrules = len(paramless)
             if worst > 1:
                 k = max(counts, key=counts.get)
                 R_.counterexample('grammar-families', 'rule-evaluated-twice-at-a-position', case,
                                   'every (rule, position) evaluated at most once', {'key': list(k), 'count': worst})
-            if total > len(rules) * (len(text) + 1):
+            if total > nrules * (len(text) + 1):
                 R_.counterexample('grammar-families', 'bound-exceeded', case,
-                                  f'<= {len(rules)} x {len(text) + 1}', total)
-            if name in ('single-reference-rule', 'empty-parentheses-reference') and hasattr(g, 'CALLS') and \
+                                  f'<= {nrules} x {len(text) + 1}', total)
+            if name in ('single-reference-rule', 'empty-parentheses-reference', 'rule-passed-by-name-and-referenced') and hasattr(g, 'CALLS') and \
                     sum(g.CALLS.values()) > len(text):
                 # the callback sits in a rule body that consumes one character: more calls than positions = some position twice
                 R_.counterexample('grammar-families', 'side-effect-repeated', case, 'inline Python of a rule body at most once per position',
